@@ -255,12 +255,13 @@ def main_check(mod, argv):
 
     # 1. regression tier: committed replay files (must pass), known-finding reproducers
     rdir = os.path.join(env.VERIF, 'replays', pid)
-    for path in sorted(glob.glob(os.path.join(rdir, '*.json'))):
+    no_replay = bool(os.environ.get('VERIF_NO_REPLAY'))   # sensitivity experiments: generated search only
+    for path in ([] if no_replay else sorted(glob.glob(os.path.join(rdir, '*.json')))):
         out, msg = _run_replay_file(mod, path, breg)
         replayed += 1
         if out == 'fail':
             violations.append(('replay', path, msg))
-    for e in KF.entries:
+    for e in ([] if no_replay else KF.entries):
         if pid not in e.get('properties', []):
             continue
         rp = e.get('replay', {}).get(pid)
